@@ -71,7 +71,7 @@ func ontChainOf(pl *kernel.Plan, seed uint64) *ontChain {
 	return newOntChain(seed, ontChainID, int(pl.C("n0", 4)), uint32(g0), ontMaxH, chs)
 }
 
-var ontHdrFaults = []int64{2, 3, 4, 5, 6, 7, 8, 9, 11}
+var ontHdrFaults = []int64{2, 3, 4, 5, 6, 7, 8, 9, 11, 13, 14, 15}
 var ontHonest = []int64{0, 0, 0, 1, 1, 10, 12}
 
 func pickEnabled(rng *kernel.RNG, all []int64) []int64 {
@@ -160,7 +160,7 @@ func genOntC31(rng *kernel.RNG, tier string) *kernel.Plan {
 	return &kernel.Plan{Cfg: cfg, Steps: steps}
 }
 
-var ontMsgFaults = []int64{2, 3, 4, 5, 6, 7, 8, 9}
+var ontMsgFaults = []int64{2, 3, 4, 5, 6, 7, 8, 9, 13, 14, 15}
 var ontMsgHonest = []int64{0, 0, 1, 1, 10, 11, 12}
 
 func genOntC24(rng *kernel.RNG, tier string) *kernel.Plan {
@@ -314,11 +314,11 @@ func execute(run *kernel.Run) {
 func init() {
 	kernel.Register(&kernel.Check{
 		ID: "C31", Level: "exploration", Engine: "E1 lightclient-ont/neo (lcont)",
-		Rule: "per run one simulated side chain (50% Ontology, 30% NEO, 20% NEO N3) registered on a real poly ledger (E1 harness, 4-5 validators, 0-1 followers): Ontology = VBFT header chain of 24 heights over peer sets of 4-7 of 10 P-256 keys with 0-3 key heights announcing new sets (some listing a peer twice), trust root at height 0/1000/4000000; headers are submitted by a relayer in walk order with gaps, out of order, replayed, alone or several per transaction, one or several transactions per block, each sealed under one of 13 modes (2/3+, exactly ceil(N/3), one below, one signer listed k times, duplicates padding the count, outsiders padding, outsiders only, one invalid/foreign/truncated signature, missing signature, previous set, extra garbage signatures, duplicate above threshold, all members) or forged to claim a configuration change (also signed by an equivocating third); NEO/N3 = headers whose witness is an m-of-n CHECKMULTISIG script over the tracked next-consensus hash with 1-3 validator changes, submitted with honest / m-1 / duplicated signature / foreign script / lowered-m script / invalid signature / previous-set witness / lower-or-equal index. oracle (reference model from the property text, independent stdlib ECDSA verification): a successful syncBlockHeader implies every non-skipped header has >= 1/3 of the DISTINCT members of the peer set recorded at the greatest recorded key height below it as listed bookkeepers with valid signatures; every peer-set / key-height write is explained by such a header (or the operator's trust root) and equals what it announced; NEO: the tracked (index, next-consensus) changes only to a header of the transaction with a higher index whose witness script hashes to the tracked value and carries >= m valid signatures of distinct members. non-trivial = at least one honest artefact accepted and one faulty one rejected; distinct by the sequence of (seal mode, outcome)",
+		Rule: "per run one simulated side chain (50% Ontology, 30% NEO, 20% NEO N3) registered on a real poly ledger (E1 harness, 4-5 validators, 0-1 followers): Ontology = VBFT header chain of 24 heights over peer sets of 4-7 of 10 P-256 keys with 0-3 key heights announcing new sets (some listing a peer twice), trust root at height 0/1000/4000000; headers are submitted by a relayer in walk order with gaps, out of order, replayed, alone or several per transaction, one or several transactions per block, each sealed under one of 13 modes (2/3+, exactly ceil(N/3), one below, one signer listed k times, duplicates padding the count, a repeated signer combined with listed-but-silent members in several listing orders, outsiders padding, outsiders only, one invalid/foreign/truncated signature, missing signature, previous set, extra garbage signatures, duplicate above threshold, all members) or forged to claim a configuration change (also signed by an equivocating third); NEO/N3 = headers whose witness is an m-of-n CHECKMULTISIG script over the tracked next-consensus hash with 1-3 validator changes, submitted with honest / m-1 / duplicated signature / foreign script / lowered-m script / invalid signature / previous-set witness / lower-or-equal index. oracle (reference model from the property text, independent stdlib ECDSA verification): a successful syncBlockHeader implies every non-skipped header has >= 1/3 of the DISTINCT members of the peer set recorded at the greatest recorded key height below it as listed bookkeepers with valid signatures; every peer-set / key-height write is explained by such a header (or the operator's trust root) and equals what it announced; NEO: the tracked (index, next-consensus) changes only to a header of the transaction with a higher index whose witness script hashes to the tracked value and carries >= m valid signatures of distinct members. non-trivial = at least one honest artefact accepted and one faulty one rejected; distinct by the sequence of (seal mode, outcome)",
 		Real: lcReal, Stub: lcStub,
 		Assumptions: []string{"header acceptance completeness is not asserted (probes require that honest headers were accepted)", "trust-root installation by the consensus operator is taken as authentic (C19 decides re-installation)", "signature validity is decided by crypto/ecdsa on the keys and digests of the simulated chain"},
 		QuickRuns:   320, ThoroughRuns: 24000, QuickCap: 60, ThoroughCap: 800,
-		RequiredProbes: []string{"ont_hdr:honest:accepted", "ont_hdr:exact-third:accepted", "ont_hdr:below-third:rejected", "ont_hdr:dup-one:rejected", "ont_hdr:dup-pad:rejected", "ont_hdr:foreign-pad:rejected",
+		RequiredProbes: []string{"ont_hdr:honest:accepted", "ont_hdr:exact-third:accepted", "ont_hdr:below-third:rejected", "ont_hdr:dup-one:rejected", "ont_hdr:dup-pad:rejected", "ont_hdr:dup-silent:rejected", "ont_hdr:silent-dup-extra:rejected", "ont_hdr:foreign-pad:rejected",
 			"ont_hdr:bad-sig:rejected", "ont_hdr:prev-set:rejected", "ont_key_header_recorded", "ont_hdr_accepted_exactly_at_one_third", "ont_multi_header_tx_accepted",
 			"neo_change:honest:accepted", "neo_change:below-m:rejected", "neo_change:other-script:rejected", "neo_change:lower-index:ignored", "neo_change:dup-sig:rejected",
 			"neo_validly_witnessed_change_at_lower_or_equal_index_ignored", "neo3_change:honest:accepted", "neo3_change:lower-index:ignored", "neo3_change:other-script:rejected"},
@@ -335,11 +335,11 @@ func init() {
 	})
 	kernel.Register(&kernel.Check{
 		ID: "C24", Level: "exploration", Engine: "E1 lightclient-ont/neo (lcont)",
-		Rule: "per run one simulated side chain (50% Ontology, 30% NEO, 20% NEO N3) with its trust root installed and headers synced honestly up to a random point (so 1-4 tracked peer sets / validator sets of sizes 4-7 are in force for different heights); then 8-22 cross-chain messages for random heights, through header_sync.syncCrossChainMsg (Ontology) and through cross_chain_manager.importOuterTransfer with a valid merkle / MPT proof of a cross-chain state (all three), each signed under a fault mode: honest 2/3+, exactly the required count, one below, ONE TRACKED SIGNER LISTED k TIMES, duplicates padding the count, outsiders padding / only, invalid / foreign / truncated signature, missing signature, previous set, other script / lowered-m script (NEO); replayed deposits as C20 probes. oracle: acceptance (message stored / deposit succeeded) implies the number of DISTINCT tracked members listed with a valid signature >= required (ceil(N/3) for this Ontology light client, m of the tracked m-of-n script for NEO, n-(n-1)/3 of the registered state validators for N3). non-trivial/distinct as C31",
+		Rule: "per run one simulated side chain (50% Ontology, 30% NEO, 20% NEO N3) with its trust root installed and headers synced honestly up to a random point (so 1-4 tracked peer sets / validator sets of sizes 4-7 are in force for different heights); then 8-22 cross-chain messages for random heights, through header_sync.syncCrossChainMsg (Ontology) and through cross_chain_manager.importOuterTransfer with a valid merkle / MPT proof of a cross-chain state (all three), each signed under a fault mode: honest 2/3+, exactly the required count, one below, ONE TRACKED SIGNER LISTED k TIMES, duplicates padding the count, a repeated signer combined with listed tracked members that did not sign ([A,A,B]+[sA,sA], [B,A,A]+[sA,sA,sX], [A,B,C,A]+[sA,sB,sA]), outsiders padding / only, invalid / foreign / truncated signature, missing signature, previous set, other script / lowered-m script (NEO); replayed deposits as C20 probes. oracle: acceptance (message stored / deposit succeeded) implies the number of DISTINCT tracked members listed with a valid signature >= required (ceil(N/3) for this Ontology light client, m of the tracked m-of-n script for NEO, n-(n-1)/3 of the registered state validators for N3). non-trivial/distinct as C31",
 		Real: lcReal, Stub: lcStub,
 		Assumptions: []string{"required count for Ontology taken from the property text of C31 (one third of the tracked peer set)", "message acceptance through the deposit path is observed as success of the whole import (valid proof, registered destination)"},
 		QuickRuns:   320, ThoroughRuns: 24000, QuickCap: 60, ThoroughCap: 800,
-		RequiredProbes: []string{"ont_msg:honest:accepted", "ont_dep:honest:accepted", "ont_msg:dup-one:rejected", "ont_dep:dup-one:rejected", "ont_msg:dup-pad:rejected", "ont_msg:below-third:rejected", "ont_msg:foreign-pad:rejected", "ont_msg:bad-sig:rejected", "ont_msg_accepted_exactly_at_required_count",
+		RequiredProbes: []string{"ont_msg:honest:accepted", "ont_dep:honest:accepted", "ont_msg:dup-one:rejected", "ont_dep:dup-one:rejected", "ont_msg:dup-pad:rejected", "ont_msg:dup-silent:rejected", "ont_dep:dup-silent:rejected", "ont_msg:silent-dup-extra:rejected", "ont_msg:dup-silent-partial:rejected", "ont_msg:below-third:rejected", "ont_msg:foreign-pad:rejected", "ont_msg:bad-sig:rejected", "ont_msg_accepted_exactly_at_required_count",
 			"neo_msg:honest:accepted", "neo_msg:below-m:rejected", "neo_msg:dup-sig:rejected", "neo_msg:other-script:rejected",
 			"neo3_msg:honest:accepted", "neo3_msg:dup-sig:rejected", "neo3_msg:other-script:rejected"},
 		Generate: func(rng *kernel.RNG, idx int, tier string) *kernel.Plan {
